@@ -55,7 +55,7 @@ SPECIAL = {
     "SQ_STR_NL": [("'a\nb'", None), ("'a\r\nb\rc'", None)],
     "DQ_CONST_STR": [('"a"', None), ('""', None), ('"a\\"b \\$x \\\\"', None), ('"a\nb"', None), ('"{ x }"', None)],
     "DQ_CONST_DOLLAR": [('"cost: $ 5"', None), ('"$"', None), ('"a$"', None), ('"$$ 1"', None)],
-    "B_SQ_STR": [("b'a'", None), ("B'a'", None)],
+    "B_SQ_STR": [("b'a'", [1, 3]), ("B'a'", [1, 3])],
     "B_DQ_STR": [('b"a"', None), ('B"x y"', None)],
     "YIELD_FROM": [("yield from", None), ("YIELD\n\tFROM", None), ("yield  from", None)],
     "ARROW": [("->", None)],
